@@ -1,5 +1,5 @@
 """Which units decide which property (DESIGN.md section 5)."""
-from . import gen
+from . import gen, kinds
 
 A_BINRW = "A3 binrw runtime (Cursor, primitive readers/writers, derive expansion) is executed as compiled code by Kani, not verified separately"
 A_KANI = "Kani 0.68 / CBMC 6.11 soundness (bit-precise semantics of the compiled MIR); rustc; the harness code under /verif/kani"
@@ -7,21 +7,35 @@ A_VERUS = "Verus 0.2026.09.13 / Z3 soundness; the mechanical extraction in /veri
 A_FMT = "A8 error-message formatting (core::fmt::write) is stubbed to Ok(()) in harnesses that do not inspect text"
 
 PROPS = {
+    "C01": {
+        "generators": [kinds.gen_kinds, gen.gen_enum_tables],
+        "level": "proof",
+        "trusted_base": [A_KANI, A_BINRW],
+        "assumptions": [
+            "A3b field independence: inside a kind harness the derived-enum bytes, time fields and (where present) other constant dimensions are held at a constant; 'for all packets' over the product of dimensions relies on binrw's derived struct codec handling fields independently and in declaration order - which is what the harness executes for the symbolic dimensions",
+            "A3 the 73-way writer/reader dispatch of `Packet` (magic byte -> struct) is not part of the kind harnesses; size-byte modes are Codec::encode's contract (C03)",
+        ],
+        "min_obligations": {"quick": 60, "thorough": 90},
+        "uncovered": ["kinds listed under uncovered_kinds (text, counted vectors, arrays, hand-written leaf inside a derived struct, hash sets, float parsing): their full round trip is out of CBMC's reach; the leaf codecs involved have their own full-domain obligations (C13 C14 C15 + leaf harnesses), the derived composition is assumed (A3b)",
+                      "multi-codepage text inside packets; Mso name/message split (text algorithms, DESIGN K13)"],
+    },
     "C03": {
+        "generators": [kinds.gen_kinds],
         "verus_units": ["framing"],
         "level": "proof",
         "trusted_base": [A_VERUS, A_KANI, A_BINRW],
         "assumptions": [],
-        "min_obligations": {"quick": 5, "thorough": 5},
-        "uncovered": [],
+        "min_obligations": {"quick": 70, "thorough": 70},
+        "uncovered": ["frame length / count byte of Plc, Mal, Ipb (hash-set backed: RandomState needs OS randomness, unsupported in Kani), Ver (float printing), Mso (text algorithms)", "text padding for non-ASCII text (encoded length differs from character count): text conversion is out of reach (K13)", "element counts beyond 3 (bounded): a count byte that goes wrong only for large counts is not reached"],
     },
     "C04": {
+        "generators": [gen.gen_enum_tables],
         "verus_units": ["framing"],
         "level": "proof",
         "trusted_base": [A_VERUS, A_KANI, A_BINRW],
         "assumptions": [],
-        "min_obligations": {"quick": 4, "thorough": 4},
-        "uncovered": [],
+        "min_obligations": {"quick": 30, "thorough": 30},
+        "uncovered": ["per-struct parser totality on arbitrary bytes for text-bearing / counted / Mso kinds (text algorithms and binrw's counted reader are out of reach)", "the 73-way reader dispatch of Packet (binrw data-enum reader, DESIGN K5) is assumed", "enum bytes: 2 representative undeclared values per enum in quick (bounded)"],
     },
     "C13": {
         "generators": [gen.gen_c13_names],
@@ -85,5 +99,12 @@ PROPS = {
         "assumptions": [],
         "min_obligations": {"quick": 1, "thorough": 1},
         "uncovered": ["the scanners escape(), unescape(), colours::strip() (round trip on whole strings, idempotence of strip, interaction with the codepage path): chars().peekable() over String is out of reach of Kani (K13) and rejected by Verus (V5) - NOT decided"],
+    },
+    "C18": {
+        "level": "proof",
+        "trusted_base": [A_KANI],
+        "assumptions": ["program name and admin password are held at constant texts (present/absent is symbolic): String content is out of Kani's reach (K13)"],
+        "min_obligations": {"quick": 4, "thorough": 4},
+        "uncovered": ["connect_blocking / connect_async (real sockets): that the ISI is the first and only frame and is sent in the configured size mode is not reachable by either verifier; Framed::handshake == write(isi) is one call (C06 covers write)"],
     },
 }
